@@ -959,6 +959,11 @@ func (l *lexer) decodeUnicode() rune {
 		return stopTok
 	}
 
+	if rr > unicode.MaxRune {
+		l.Error("Unicode escape value is beyond U+10FFFF")
+		return stopTok
+	}
+
 	return rr
 }
 
